@@ -714,6 +714,13 @@ def run(ctx):
     ctx.soft(rule_E4)
     ctx.soft(rule_E5)
     ctx.soft(rule_E6)
+    # "for every ... error rate": a table that remembers genotype priors / grids under a key that forgets one of the
+    # inputs hands a later mutation an earlier one's values (same rule object as C14.K7)
+    from ..formula import imported
+    from . import C14
+
+    ctx._own_rules = set(ctx.rule_min)
+    imported(ctx, C14.rule_K7)
 
 
 # --------------------------------------------------------------------------- self-test catalogue
